@@ -1,4 +1,5 @@
 import BddProofs.Reach
+import BddProofs.BitsFit
 /-! # C17 — the unique table is a sound hash-consing store under every put/collect history
 
 Model: `P.Table α` (`BddModel/Table.lean`), generic in the value type with any `MyHash` (adversarial
@@ -74,6 +75,30 @@ theorem C17_every_reachable_state {s : St} (hr : Reachable s) :
 example : (initTable 4 0).Wf ∧ TInv (initTable 4 0).bhash (initTable 4 0).toTab (fun _ => []) ∧ RS (initTable 4 0) :=
   ⟨initTable_wf 4 0, initTable_tinv (by decide), initTable_RS (by decide)⟩
 
+/-- the link of a cell and its occupied flag share one 32-bit word (`Entry::next`: 31 bits of index,
+bit 0 = occupied).  The word behaves as the pair the model keeps: writing the link (any value the
+assertion of `set_next` admits, `< 2^31`) reads back and leaves the flag alone; writing the flag reads
+back and leaves the link alone — for every word -/
+theorem C17_cell_word (w n : BitVec 32) (b : Bool) (h : n.toNat < 2147483648) :
+    Bits.entNext (Bits.entSetNext w n) = n ∧ Bits.entOccupied (Bits.entSetNext w n) = Bits.entOccupied w ∧
+    Bits.entOccupied (Bits.entSetOccupied w b) = b ∧ Bits.entNext (Bits.entSetOccupied w b) = Bits.entNext w :=
+  ⟨Bits.entNext_setNext w n h, Bits.entOccupied_setNext w n h, Bits.entOccupied_setOccupied w b,
+   Bits.entNext_setOccupied w b⟩
+
+/-- … and nothing a manager stores needs more than those 31 bits: in every good state with at most
+`2^31` cells (the constructors reject more: `newWith_cap`), the cell of every stored node, the cells
+both its children name, its chain link and every bucket head are below `2^31` -/
+theorem C17_words_fit {s : St} (hg : Good s) (hcap : s.storage.vals.size ≤ 2147483648) :
+    (∀ i n, s.nodes i = some n →
+        i < 2147483648 ∧ n.low.idx < 2147483648 ∧ n.high.idx < 2147483648 ∧
+        Arr.rd s.storage.nxs i < 2147483648) ∧
+    (∀ b, b < s.storage.buckets.size → Arr.rd s.storage.buckets b < 2147483648) :=
+  Good.words_fit hg hcap
+
+/-- non-vacuity: a fresh entry is free and unlinked; a new manager has at most `2^31` cells -/
+example : Bits.entNext 0#32 = 0#32 ∧ Bits.entOccupied 0#32 = false ∧ s4.storage.vals.size ≤ 2147483648 :=
+  ⟨Bits.ent_fresh.1, Bits.ent_fresh.2, newWith_cap new4_ok⟩
+
 end P
 #print axioms P.C17_put
 #print axioms P.C17_distinct
@@ -82,3 +107,5 @@ end P
 #print axioms P.C17_chains
 #print axioms P.C17_sweep
 #print axioms P.C17_every_reachable_state
+#print axioms P.C17_cell_word
+#print axioms P.C17_words_fit
